@@ -43,7 +43,17 @@ def run_case(case, tmp):
         parts = Path(path).relative_to(state["root"]).parts
         return [NAMES[p] if p in NAMES else int(p) for p in parts]
 
+    eq_all = bool(case.get("eq_all"))
+
     class RecMixin:
+        # value-like components (think of dataclasses built with the same parameters): distinct objects of one class
+        # compare equal and hash alike - they are still different components, each with its own events and state
+        def __eq__(self, other):
+            return (type(self) is type(other)) if eq_all else (self is other)
+
+        def __hash__(self):
+            return hash(type(self)) if eq_all else id(self)
+
         def setup(self):
             log.append(["setup", self.ident]); super().setup()
 
